@@ -210,6 +210,15 @@ func init() {
 	reg(&Op{Name: "New", Kind: KLeaf, Slots: safe("msg"), Class: "lib-leaf", Lib: true, Core: true,
 		Build: func(s []string, _ error, _ []error) error { return errors.New(s[0]) },
 		Model: func(s []string, _ *Node, _ []*Node) *Node { return Stack(libLeaf(s[0], s, nil)) }})
+	reg(&Op{Name: "New@generic", Kind: KLeaf, Slots: safe("msg"), Class: "lib-leaf", Lib: true,
+		Build: func(s []string, _ error, _ []error) error { return newAtGeneric(s[0], 1) },
+		Model: func(s []string, _ *Node, _ []*Node) *Node { return Stack(libLeaf(s[0], s, nil)) }})
+	reg(&Op{Name: "New@genericmethod", Kind: KLeaf, Slots: safe("msg"), Class: "lib-leaf", Lib: true,
+		Build: func(s []string, _ error, _ []error) error { return (&genericSite[string]{}).make(s[0]) },
+		Model: func(s []string, _ *Node, _ []*Node) *Node { return Stack(libLeaf(s[0], s, nil)) }})
+	reg(&Op{Name: "New@unknownfn", Kind: KLeaf, Slots: safe("msg"), Class: "lib-leaf", Lib: true,
+		Build: func(s []string, _ error, _ []error) error { return unknown(s[0]) },
+		Model: func(s []string, _ *Node, _ []*Node) *Node { return Stack(libLeaf(s[0], s, nil)) }})
 	reg(&Op{Name: "New@colonpath", Kind: KLeaf, Slots: safe("msg"), Class: "lib-leaf", Lib: true,
 		Build: func(s []string, _ error, _ []error) error { return newAtColonSite(s[0]) },
 		Model: func(s []string, _ *Node, _ []*Node) *Node { return Stack(libLeaf(s[0], s, nil)) }})
@@ -512,6 +521,9 @@ func init() {
 	annot("WithContextTags", slots(safe("key"), unsafe("value")), func(s []string, c error) error {
 		return errors.WithContextTags(c, tagCtx("k"+s[0], s[1]))
 	}, func(s []string, n *Node) { n.Tags = [][2]string{{"k" + s[0], s[1]}} })
+	annot("WithContextTags_shortkey", unsafe("value"), func(s []string, c error) error {
+		return errors.WithContextTags(c, tagCtx("u", s[0]))
+	}, func(s []string, n *Node) { n.Tags = [][2]string{{"u", s[0]}} })
 	// the same context annotated twice (a request context reused by two layers)
 	reg(&Op{Name: "WithContextTags_twice", Kind: KWrap, Slots: slots(safe("key"), unsafe("value")), Class: "annotation", Lib: true,
 		Build: func(s []string, c error, _ []error) error {
@@ -778,6 +790,7 @@ func init() {
 			Model: func(s []string, c *Node, _ []*Node) *Node { return userPrefix(s[0], c) }})
 	}
 	uwrap("ut.CauseW", true, func(m string, c error) error { return &ut.CauseW{Msg: m, C: c} })
+	uwrap("ut.ProtoW", true, func(m string, c error) error { return &ut.ProtoW{Msg: m, C: c} })
 	uwrap("ut.BothW", true, func(m string, c error) error { return &ut.BothW{Msg: m, C: c} })
 	uwrap("ut.ValW", true, func(m string, c error) error { return ut.ValW{Msg: m, C: c} })
 	uwrap("ut.NCW", true, func(m string, c error) error { return ut.NCW{Msg: m, C: c, X: []int{2}} })
@@ -807,6 +820,9 @@ func init() {
 		}})
 	reg(&Op{Name: "ut.EmptyW", Kind: KWrap, Class: "user-prefix", Unreg: true,
 		Build: func(s []string, c error, _ []error) error { return &ut.EmptyW{C: c} },
+		Model: func(s []string, c *Node, _ []*Node) *Node { return Prefix("", c) }})
+	reg(&Op{Name: "ut.MovedW", Kind: KWrap, Class: "user-prefix",
+		Build: func(s []string, c error, _ []error) error { return &ut.MovedW{C: c} },
 		Model: func(s []string, c *Node, _ []*Node) *Node { return Prefix("", c) }})
 	reg(&Op{Name: "ut.MigW", Kind: KWrap, Class: "user-prefix",
 		Build: func(s []string, c error, _ []error) error { return &ut.MigW{C: c} },
